@@ -266,14 +266,17 @@ func genMTU(r *vgen.Rand, small bool) int {
 
 // ---------------------------------------------------------------- printing
 
-// pN prints an N literal (the case files open uint63_scope for the byte words).
-func pN(v uint64) string { return fmt.Sprintf("%d%%N", v) }
+// pN prints an N literal (N_scope is open in the case files).
+func pN(v uint64) string { return fmt.Sprintf("%d", v) }
 
-// pBytes prints a byte string as (hx len [words]) with seven bytes per primitive
+// pBytes prints a byte string as (HX len [words]) with seven bytes per primitive
 // integer (Lib/GwHex.v).
 func pBytes(b []byte) string {
 	var sb strings.Builder
-	fmt.Fprintf(&sb, "(hx %d%%N [", len(b))
+	if len(b) == 0 {
+		return "[]"
+	}
+	fmt.Fprintf(&sb, "(HX %d [", len(b))
 	for i := 0; i < len(b); i += 7 {
 		if i > 0 {
 			sb.WriteByte(';')
@@ -537,8 +540,8 @@ func main() {
 	run.CheckFn = "GwFrame.check"
 	run.DiagFn = "GwFrame.diag"
 	run.CaseType = "GwFrame.case"
-	run.Prelude = "From Coq Require Import Uint63.\nImport GwFrame.\nLocal Open Scope uint63_scope."
-	run.ShardSize = 24
+	run.Prelude = "From Coq Require Import Uint63.\nImport GwFrame."
+	run.ShardSize = 36
 	run.Rule = "CEnc: seeded write/read schedules (valid v4/v6 packets with correct length fields, " +
 		"~15% invalid ones, reads only when they cannot block), frame sizes 56..1500 biased to 57..256; " +
 		"non-trivial = some packet spans two or more frames or an invalid packet was skipped. " +
@@ -549,24 +552,24 @@ func main() {
 	r := vgen.NewRand(run.Seed)
 	thorough := run.Tier == "thorough"
 
-	nEnc := run.Count(60, 1500)
-	nE2E := run.Count(230, 6000)
-	nRx := run.Count(90, 2500)
+	nEnc := run.Count(40, 300)
+	nE2E := run.Count(160, 1200)
+	nRx := run.Count(60, 500)
 
 	maxLenFor := func(cr *vgen.Rand) int {
 		if thorough {
-			switch cr.Intn(12) {
+			switch cr.Intn(40) {
 			case 0:
 				return 9000
-			case 1, 2, 3:
+			case 1, 2, 3, 4, 5, 6:
 				return 1500
 			}
 			return 400
 		}
-		if cr.Intn(10) == 0 {
-			return 600
+		if cr.Intn(12) == 0 {
+			return 500
 		}
-		return 220
+		return 180
 	}
 
 	mkSender := func(cr *vgen.Rand, sess uint8, stream uint32, npkMax int) *senderRun {
@@ -611,7 +614,7 @@ func main() {
 		desc := map[string]any{"mtu": s.mtu, "sess": s.sess, "stream": s.stream, "ops": descOps(s.ops),
 			"frames": len(s.frames()), "ring_full": s.ringFull}
 		if s.hung {
-			run.Violate(run.Add("enc", "(CEnc 0%N 0%N 0%N [] [] [])", "hung", false, desc), "encoder.Read blocked or never returned nil", desc)
+			run.Violate(run.Add("enc", "(CEnc 0 0 0 [] [] [])", "hung", false, desc), "encoder.Read blocked or never returned nil", desc)
 			continue
 		}
 		reads := vgen.ListOf(s.reads, func(f []byte) string { return vgen.Opt(pBytes(f), f != nil) })
@@ -638,7 +641,9 @@ func main() {
 		nsnd := 1
 		mode := vgen.Pick(cr, 0, 0, 0, 1, 1, 2, 3, 3, 4, 5, 5, 6)
 		forceKnown := !thorough && i == 0 || thorough && i%500 == 0
-		if mode != 0 && cr.Chance(25, 100) && !forceKnown {
+		// boundary of the reassembly list: one packet spanning exactly 100 frames
+		forceEdge := !thorough && i == 1 || thorough && i%500 == 1
+		if mode != 0 && cr.Chance(25, 100) && !forceKnown && !forceEdge {
 			nsnd = cr.Range(2, 3)
 		}
 		var ss []*senderRun
@@ -651,13 +656,16 @@ func main() {
 				n := 40 + 99*41 + cr.Range(2, 60)
 				s = runSender(57, sess, base, []intent{{kind: 0, pkt: mkV4(cr, 30)},
 					{kind: 0, pkt: mkV4(cr, n)}, {kind: 0, pkt: mkV6(cr, 50)}})
+			} else if forceEdge {
+				s = runSender(57, sess, base, []intent{{kind: 0, pkt: mkV4(cr, 40+99*41)},
+					{kind: 0, pkt: mkV6(cr, 60)}})
 			} else {
 				s = mkSender(cr, sess, base+uint32(k)*vgen.Pick(cr, uint32(1), 1, 1, 7, 0x100001, 0x100000), 7)
 			}
 			hung = hung || s.hung
 			ss = append(ss, s)
 		}
-		if forceKnown {
+		if forceKnown || forceEdge {
 			mode = 0
 		}
 		var frames [][][]byte
@@ -719,7 +727,7 @@ func main() {
 		for _, s := range ss {
 			key += fmt.Sprintf("|%d|%s", s.mtu, descOps(s.ops))
 		}
-		run.Add("e2e", term, key, reassembled || forceKnown, desc, tags...)
+		run.Add("e2e", term, key, reassembled || forceKnown || forceEdge, desc, tags...)
 	}
 
 	// ---- CRx
